@@ -70,6 +70,17 @@ func c17Class(backend, what string) string {
 	return "C17/" + backend + "/" + area
 }
 
+// c17YieldCtx is a context whose Err() is a scheduling point.
+type c17YieldCtx struct {
+	context.Context
+	s *core.Sim
+}
+
+func (c *c17YieldCtx) Err() error {
+	c.s.Yield("h.ctxpoll", "")
+	return c.Context.Err()
+}
+
 // c17Find calls FindLatest and turns a panic into an error.
 func c17Find(mem amhist.MemoryApi, ctx context.Context, limit int, q amhist.Query) (recs []*amhist.MemoryRecord, err error) {
 	defer func() {
@@ -133,7 +144,11 @@ func runC17(t *testing.T, rc *core.RunCtx) {
 		gaps[i] = tp.Range(1, 5)
 	}
 	syncEvery := tp.Range(2, 6)
-	rc.Desc = fmt.Sprintf("%s tracked=%v max=%d rejected=%v list=%d%v batch=%d backend=%s", p.String(), tracked, hc.MaxRecords, hc.TrackRejected, listMode, list, batch, which)
+	concurrentReads := 0
+	if tp.Draw(3) == 0 {
+		concurrentReads = tp.Range(1, 4)
+	}
+	rc.Desc = fmt.Sprintf("%s tracked=%v max=%d rejected=%v list=%d%v batch=%d backend=%s reads=%d", p.String(), tracked, hc.MaxRecords, hc.TrackRejected, listMode, list, batch, which, concurrentReads)
 	rc.Shape = rc.Desc
 	dir, err := os.MkdirTemp("", "c17-")
 	if err != nil {
@@ -288,7 +303,63 @@ func runC17(t *testing.T, rc *core.RunCtx) {
 			}
 			return true
 		}
+		// a reader querying the in-memory log while the driver keeps mutating:
+		// its context is polled once per scanned record, which is where the
+		// scheduler may let transitions (and rotations) happen
+		driverDone := false
+		if concurrentReads > 0 {
+			// time may pass (the driver's pauses end) while the reader is parked
+			s.TimeWeight = 3
+			s.Go("reader", func() {
+				for q := 0; q < concurrentReads && !driverDone && !s.Failed(); q++ {
+					// (mostly on a log that is about to rotate)
+					for w8 := 0; w8 < 40 && q == 0 && len(expected()) < hc.MaxRecords-1 && !driverDone; w8++ {
+						time.Sleep(time.Second)
+					}
+					s.Op()
+					n0 := len(expected())
+					limit := []int{0, 1, 3}[q%3]
+					got, err := c17Find(mem, &c17YieldCtx{Context: ctx, s: s}, limit, amhist.Query{})
+					n1 := len(expected())
+					if err != nil {
+						s.Fail("C17/memory/find-error", "FindLatest during mutations: %v", err)
+						return
+					}
+					s.Probe("concurrent-query")
+					okAny := false
+					var why string
+					for k := n0; k <= n1 && !okAny; k++ {
+						want := expected()[:k]
+						if len(want) > hc.MaxRecords {
+							want = want[len(want)-hc.MaxRecords:]
+						}
+						if limit > 0 && len(want) > limit {
+							want = want[len(want)-limit:]
+						}
+						if len(got) != len(want) {
+							why = fmt.Sprintf("%d records, %d expected", len(got), len(want))
+							continue
+						}
+						same := true
+						for j, g := range got {
+							e := want[len(want)-1-j]
+							if g == nil || g.Time == nil || fmt.Sprint(g.Time.MTimeTracked) != projFor(backends[0])(e.ta) || !g.Time.HTime.Equal(e.at) {
+								same = false
+								why = fmt.Sprintf("record %d (newest first) is not transition %d of the log", j, len(want)-1-j)
+								break
+							}
+						}
+						okAny = same
+					}
+					if !okAny {
+						s.Fail("C17/memory/concurrent-query", "FindLatest(limit %d) issued with %d matching transitions in the log and returning with %d does not list the newest records of any log state in between: %s", limit, n0, n1, why)
+						return
+					}
+				}
+			})
+		}
 		s.Go("driver", func() {
+			defer func() { driverDone = true }()
 			for i, op := range p.tasks[0] {
 				w.exec("driver", op, false)
 				time.Sleep(time.Duration(gaps[i%len(gaps)]) * time.Second)
